@@ -260,6 +260,15 @@ fn space(sink: &mut Sink, rng: &mut Rng, thorough: bool) {
         sink.emit(&format!("sp_fill {} {} {}", depth, n, cells_txt(&s)), &ans, !s.is_empty());
       }
     }
+    // `fill_holes_smaller_than(f)`: f chosen strictly between k / n_cells and (k + 1) / n_cells, so that "coverage <= f" means
+    // "at most k cells of this depth" whatever the rounding of the division
+    for k in [1u64, 3] {
+      let f = (k as f64 + 0.5) / (ncell as f64);
+      let got = std::panic::catch_unwind(AssertUnwindSafe(|| flat_cells(&m.fill_holes_smaller_than(f))));
+      sink.count("space-op:fill_holes_smaller_than");
+      let ans = match got { Ok(g) => cells_txt(&g), Err(_) => panic_answer() };
+      sink.emit(&format!("sp_fillk {} {} {}", depth, k, cells_txt(&s)), &ans, !s.is_empty());
+    }
     // hole filling: superset that only adds whole connected components of the complement
     let got = std::panic::catch_unwind(AssertUnwindSafe(|| flat_cells(&m.fill_holes(None))));
     sink.count("space-op:fill_holes");
